@@ -443,6 +443,8 @@ int main(int argc, char **argv) {
           supla_esp_gpio_rs_set_relay(r, RS_RELAY_OFF, 1, 0);
           sdk_advance_us(1500000);
         }
+      } else if (!strcmp(op, "rswitch") && ops_ntok == 3) { /* a local switch request: port, hi (255 = toggle) */
+        supla_esp_gpio_relay_switch(atoi(ops_tok[1]), (unsigned char)atoi(ops_tok[2]));
       } else if (!strcmp(op, "readcost") && ops_ntok == 2) { /* time passes while code runs: us per reading of the counter */
         sdk_read_cost_us = atoi(ops_tok[1]);
       } else if (!strcmp(op, "rscancel") && ops_ntok == 2) { /* forget the task of shutter i (set-up between requests) */
